@@ -1,6 +1,7 @@
 package main
 
 import (
+	"runtime"
 	"math"
 	"fmt"
 	"io"
@@ -37,6 +38,16 @@ func genWQ(g *genCtx) {
 		nCases = int(2500 * g.scale)
 		maxOps = 40
 		maxW, maxL = 4, 5
+	}
+	if profile == "C19" {
+		rounds := 150
+		if !g.quick() {
+			rounds = int(3000 * g.scale)
+		}
+		for _, kind := range []string{"stop", "brk", "mixed"} {
+			g.newCase("profile=C19 kind=stopstorm")
+			g.op("stopstorm rounds=%d n=8 kind=%s", rounds, kind)
+		}
 	}
 	for t := 0; t < nCases; t++ {
 		g.newCase("profile=" + profile)
@@ -167,7 +178,8 @@ func genStopBreakStorm(g *genCtx, r *rng) {
 		g.op("enq prio=%d name=%d adj=0", r.rangeIn(1, 3), n)
 		n++
 	}
-	seqs := [][]string{{"stop", "brk"}, {"stop", "rel pick=0 err=0", "brk"}, {"brk", "stop"}, {"stop", "stop"}, {"brk", "brk"}, {"stop", "brk", "stop"}}
+	seqs := [][]string{{"stop", "brk"}, {"stop", "rel pick=0 err=0", "brk"}, {"brk", "stop"}, {"stop", "stop"}, {"brk", "brk"}, {"stop", "brk", "stop"},
+		{"stop n=8"}, {"brk n=8"}, {"stop n=4", "brk n=4"}, {"stop n=16"}}
 	for _, op := range seqs[r.intn(len(seqs))] {
 		g.op("%s", op)
 	}
@@ -242,12 +254,20 @@ func genAdjustStorm(g *genCtx, r *rng, profile string) {
 			g.op("setadj id=%d v=%d", waiting[r.intn(len(waiting))], r.rangeIn(0, 12))
 		}
 		switch {
-		case profile == "C16" && r.chance(2, 3):
+		case (profile == "C16" && r.chance(2, 3)) || (profile == "C05" && r.chance(1, 3)):
 			// SetPriority / Dequeue trigger the re-ordering and then act on (possibly moved) items
 			g.op("setprio id=%d p=%d", waiting[r.intn(len(waiting))], r.rangeIn(0, 12))
 			g.op("deq id=%d", waiting[r.intn(len(waiting))])
 			if r.chance(1, 2) {
 				g.op("deq id=%d", waiting[r.intn(len(waiting))])
+			}
+			if profile == "C05" || r.chance(1, 3) {
+				// the calls above end in an AdjustPriorities of their own; values that change after it and before the
+				// next completion must still be consulted for that decision
+				for i, k := 0, r.rangeIn(1, 3); i < k; i++ {
+					g.op("setadj id=%d v=%d", waiting[r.intn(len(waiting))], r.rangeIn(0, 12))
+				}
+				g.op("rel pick=0 err=0")
 			}
 		default:
 			g.op("rel pick=0 err=0")
@@ -441,6 +461,10 @@ func execWQCase(x *execCtx) {
 		}
 		toks := strings.Fields(line)
 		f := fields(toks[1:])
+		if toks[0] == "stopstorm" {
+			out(line, stopStorm(atoi(f["rounds"]), atoi(f["n"]), f["kind"]))
+			continue
+		}
 		if r == nil && toks[0] != "new" {
 			out(line, "bad-op:no-queue")
 			continue
@@ -589,11 +613,28 @@ func execWQCase(x *execCtx) {
 				}
 				out(line, r.observe("ret="+ret+" "))
 			}()
-		case "stop":
-			r.q.Stop()
-			out(line, r.observe(""))
-		case "brk":
-			r.q.Break()
+		case "stop", "brk":
+			// n=K: the call comes from K goroutines at once ("may be called at any time" — also at the same time)
+			call := r.q.Stop
+			if toks[0] == "brk" {
+				call = r.q.Break
+			}
+			if k := atoiOr(f["n"], 1); k > 1 {
+				var wg sync.WaitGroup
+				start := make(chan struct{})
+				for i := 0; i < k; i++ {
+					wg.Add(1)
+					go func() {
+						defer wg.Done()
+						<-start
+						call()
+					}()
+				}
+				close(start)
+				wg.Wait()
+			} else {
+				call()
+			}
 			out(line, r.observe(""))
 		case "obs", "final":
 			out(line, r.observe(""))
@@ -602,6 +643,70 @@ func execWQCase(x *execCtx) {
 		}
 	}
 	_ = io.EOF
+}
+
+// stopStorm: fresh queues with one item executing and two waiting; Stop / Break (or both kinds) are called from n goroutines
+// released together by a spin barrier.  Every call must return, the executing item finishes, and after Stop the waiting items
+// run exactly once (after a Break they may be skipped).  A panic in any caller kills the process and is observed as a crash.
+func stopStorm(rounds, n int, kind string) string {
+	hung, notrun, twice := 0, 0, 0
+	for t := 0; t < rounds; t++ {
+		q := workqueue.NewQueue(workqueue.WithWorkers(1), workqueue.WithQueueLength(4))
+		gate := make(chan struct{})
+		var ran [3]atomic.Int32
+		for i := 0; i < 3; i++ {
+			i := i
+			q.Enqueue(func() error { ran[i].Add(1); <-gate; return nil })
+		}
+		deadline := time.Now().Add(2 * time.Second)
+		for ran[0].Load() == 0 && time.Now().Before(deadline) {
+			runtime.Gosched()
+		}
+		var ready, done atomic.Int32
+		var goFlag atomic.Bool
+		for g := 0; g < n; g++ {
+			brk := kind == "brk" || (kind == "mixed" && g%2 == 1)
+			go func() {
+				ready.Add(1)
+				for !goFlag.Load() {
+				}
+				if brk {
+					q.Break()
+				} else {
+					q.Stop()
+				}
+				done.Add(1)
+			}()
+		}
+		for int(ready.Load()) < n {
+			runtime.Gosched()
+		}
+		goFlag.Store(true)
+		deadline = time.Now().Add(5 * time.Second)
+		for int(done.Load()) < n && time.Now().Before(deadline) {
+			time.Sleep(50 * time.Microsecond)
+		}
+		if int(done.Load()) < n {
+			hung++
+		}
+		close(gate)
+		if kind == "stop" {
+			deadline = time.Now().Add(5 * time.Second)
+			for (ran[1].Load() == 0 || ran[2].Load() == 0) && time.Now().Before(deadline) {
+				time.Sleep(100 * time.Microsecond)
+			}
+			if ran[1].Load() == 0 || ran[2].Load() == 0 {
+				notrun++
+			}
+		}
+		time.Sleep(200 * time.Microsecond)
+		for i := range ran {
+			if ran[i].Load() > 1 {
+				twice++
+			}
+		}
+	}
+	return fmt.Sprintf("storm hung=%d notrun=%d twice=%d", hung, notrun, twice)
 }
 
 // ---- ungated stress under the race detector: many producers, real concurrency ----
